@@ -35,6 +35,9 @@ func VerifC05_RealCandidates() {
 	akiForm := verifrt.Choose(3)
 	var aki extensionsupport.AuthorityKeyIdentifier
 	client.Extensions = ski(0x22)
+	if verifrt.Choose(2) == 1 {
+		client.Extensions = nil // end-entity certificates often carry no subject key identifier
+	}
 	switch akiForm {
 	case 1:
 		aki = extensionsupport.AuthorityKeyIdentifier{KeyIdentifier: []byte{0x11}}
